@@ -320,6 +320,18 @@ var confCases = []confCase{
 		confWait(y.srvDone, 20*time.Second) // does not read on
 		resp.Body.Close()
 	}},
+	{"expired-write-deadline-left-behind-truncates-the-response", func(y *confSync, w http.ResponseWriter, r *http.Request) {
+		w.Write([]byte("a"))
+		w.(http.Flusher).Flush()
+		http.NewResponseController(w).SetWriteDeadline(time.Now())
+	}, confSimple},
+	{"write-deadline-lifted-again-ends-the-response-in-order", func(y *confSync, w http.ResponseWriter, r *http.Request) {
+		w.Write([]byte("a"))
+		w.(http.Flusher).Flush()
+		rc := http.NewResponseController(w)
+		rc.SetWriteDeadline(time.Now())
+		rc.SetWriteDeadline(time.Time{})
+	}, confSimple},
 	{"deadline-passes-before-headers", func(y *confSync, w http.ResponseWriter, r *http.Request) {
 		select {
 		case <-r.Context().Done():
